@@ -1,3 +1,134 @@
-"""for-each-insert rule for loops over unordered collections (filled in for C04/C18)."""
+"""for-each-insert rule: loops over unordered collections (sets of names, dicts keyed by
+such sets).
+
+A loop `for k in S: result[k] = body(k)` over a set S of names (iteration order = arbitrary
+ghost permutation) is executed symbolically as:
+  * either some element makes the body raise: a witness k_w in S is chosen and the body is
+    run on it (only its raising outcomes are kept) - this covers every order, because
+    whichever element raises first, some element raised;
+  * or no element raises: `result` becomes a lazily defined map with domain S whose value at
+    a queried key is obtained by running the body on that key (a raise there contradicts the
+    path and is pruned).
+The body must only write result[k] (checked syntactically), which makes the loop's effect
+independent of the iteration order - this is obligation O1/O2 of C18.
+"""
+from __future__ import annotations
+import ast
+import z3
+from . import sym
+from .values import *
+
+
+class LazyBase:
+    """base of an SDict: domain (a Bool-valued python function of the key term) + compute."""
+    def __init__(self, member_fn, compute_fn, descr):
+        self.member_fn = member_fn
+        self.compute_fn = compute_fn
+        self.descr = descr
+
+    def get(self, I, key):
+        from .interp import Raise, PathAbort
+        k = I.bi.key_term(key)
+        if k is None or k.sort() != sym.Name:
+            return None
+        if not I.path.branch(self.member_fn(k), f"in-domain({self.descr})"):
+            return None
+        try:
+            return self.compute_fn(I, SName(k) if not isinstance(key, str) else key)
+        except Raise:
+            raise PathAbort()      # the loop completed on this path: no element raised
+
+    def __repr__(self):
+        return f"LazyBase({self.descr})"
+
+
+def _store_target(body, loopvars):
+    """The dict name written by `NAME[key] = ...` statements; every statement of the body must
+    be such a store or an if/else of such stores."""
+    names = set()
+
+    def scan(stmts):
+        for st in stmts:
+            if isinstance(st, ast.Assign) and len(st.targets) == 1 and isinstance(st.targets[0], ast.Subscript) \
+                    and isinstance(st.targets[0].value, ast.Name) and isinstance(st.targets[0].slice, ast.Name) \
+                    and st.targets[0].slice.id in loopvars:
+                names.add(st.targets[0].value.id)
+            elif isinstance(st, ast.If):
+                scan(st.body)
+                scan(st.orelse)
+            elif isinstance(st, ast.Assign) and all(isinstance(t, ast.Name) for t in st.targets):
+                pass        # local temporaries
+            elif isinstance(st, ast.AnnAssign) and isinstance(st.target, ast.Name):
+                pass
+            else:
+                names.add(None)
+    scan(body)
+    if len(names) == 1 and None not in names:
+        return names.pop()
+    return None
+
+
 def for_special(I, it, st, env):
-    return False
+    from .builtin_contracts import SDict, DictView
+    from .interp import Raise, PathAbort, Unsupported, Env
+    if isinstance(it, SSet):
+        if not isinstance(st.target, ast.Name):
+            raise Unsupported("loop over a set with a non-name target")
+        loopvar = st.target.id
+        member_fn = lambda k: sym.member(k, it.term)
+        bind = lambda e, key: e.vars.__setitem__(loopvar, key)
+        keyvars = {loopvar}
+        descr = f"set@{st.lineno}"
+    elif isinstance(it, DictView) and it.d.base is not None:
+        src = it.d
+        if src.entries:
+            raise Unsupported("loop over a dict with both entries and symbolic base")
+        if not isinstance(src.base, LazyBase):
+            raise Unsupported("loop over a dict with a non-lazy symbolic base")
+        if it.kind == "items":
+            if not (isinstance(st.target, ast.Tuple) and len(st.target.elts) == 2
+                    and all(isinstance(e, ast.Name) for e in st.target.elts)):
+                raise Unsupported("items() loop target")
+            kv, vv = st.target.elts[0].id, st.target.elts[1].id
+
+            def bind(e, key):
+                e.vars[kv] = key
+                e.vars[vv] = src.base.get(I, key)
+            keyvars = {kv}
+        elif it.kind == "keys":
+            loopvar = st.target.id
+            bind = lambda e, key: e.vars.__setitem__(loopvar, key)
+            keyvars = {loopvar}
+        else:
+            raise Unsupported("values() loop over symbolic dict")
+        member_fn = src.base.member_fn
+        descr = f"dict@{st.lineno}"
+    else:
+        return False
+    target = _store_target(st.body, keyvars)
+    if target is None:
+        raise Unsupported(f"loop over an unordered collection is not of for-each-insert shape ({env.module.relpath}:{st.lineno})")
+    ok, d = env.lookup(target)
+    if not ok or not isinstance(d, SDict) or d.entries or d.base is not None:
+        raise Unsupported("for-each-insert target is not a fresh empty dict")
+    I.ghost.setdefault("foreach_sites", []).append(f"{env.module.relpath}:{st.lineno}")
+
+    def run_body(I2, key):
+        e2 = Env(env.module, env, env.funcdef, env.frame_id)
+        tmp = SDict()
+        e2.vars[target] = tmp
+        bind(e2, key)
+        I2.exec_block(st.body, e2)
+        if not tmp.entries:
+            raise Unsupported("for-each-insert body did not store")
+        return tmp.entries[-1][1]
+
+    if I.path.branch(z3.Bool(I.path.fresh_name(f"loop@{st.lineno}.some-element-raises")), f"loop-raises@{st.lineno}"):
+        kw = z3.Const(I.path.fresh_name(f"kw@{st.lineno}"), sym.Name)
+        I.path.assume(member_fn(kw))
+        I.ghost.setdefault("ambient_names", []).append(kw)
+        I.ghost.setdefault("witness_names", []).append(kw)
+        run_body(I, SName(kw))
+        raise PathAbort()          # body did not raise on the witness: contradiction
+    d.base = LazyBase(member_fn, run_body, descr)
+    return True
